@@ -826,6 +826,14 @@ func (g *graphCase) linkDump(cfg buildCfg) (*linker.VerifC10Dump, string) {
 	for _, m := range g.mods {
 		abs["/src/"+m.name+".js"] = g.source(m)
 	}
+	var entries []string
+	for _, e := range g.user {
+		entries = append(entries, "/src/"+g.m(e).name+".js")
+	}
+	return linkDumpFiles(abs, entries, cfg)
+}
+
+func linkDumpFiles(abs map[string]string, entries []string, cfg buildCfg) (*linker.VerifC10Dump, string) {
 	options := config.Options{
 		Mode:              config.ModeBundle,
 		OutputFormat:      config.FormatESModule,
@@ -838,8 +846,8 @@ func (g *graphCase) linkDump(cfg buildCfg) (*linker.VerifC10Dump, string) {
 		ExtensionOrder:    []string{".tsx", ".ts", ".jsx", ".js", ".css", ".json"},
 	}
 	var eps []bundler.EntryPoint
-	for _, e := range g.user {
-		eps = append(eps, bundler.EntryPoint{InputPath: "/src/" + g.m(e).name + ".js"})
+	for _, e := range entries {
+		eps = append(eps, bundler.EntryPoint{InputPath: e})
 	}
 	log := logger.NewDeferLog(logger.DeferLogNoVerboseOrDebug, nil)
 	mockFS := fs.MockFS(abs, fs.MockUnix, "/")
@@ -1922,6 +1930,13 @@ func runC10(seed uint64, n int, tier string, outDir string) []*Stats {
 	}
 	stS.Extra["node_jobs"] = len(jobs)
 	stS.Extra["build_seconds"] = tBuild.Seconds()
+	stC := NewStats("c10-css", seed)
+	nCSS := n + 10
+	if tier == "thorough" {
+		nCSS = 2 * n
+	}
+	cssCases(r, nCSS, tmp, stC, cf)
+	stC.Finish("distinct (graph, CSS chunks) AND some CSS file shared between entry points")
 	cf.AddCases("split", "graph_z * list obs_z", "check_split", fullItems)
 	cf.AddCases("dump", "graph_z * list dchunk_z", "check_dump", dumpItems)
 	stS.Finish("distinct (graph, observed chunks) AND at least one shared chunk")
@@ -1929,7 +1944,7 @@ func runC10(seed uint64, n int, tier string, outDir string) []*Stats {
 	if err := os.WriteFile(filepath.Join(outDir, "c10_cases.v"), []byte(cf.String()), 0o644); err != nil {
 		panic(err)
 	}
-	return []*Stats{stB, stS}
+	return []*Stats{stB, stS, stC}
 }
 
 func evalOracle(p *pendingCase, res []jobResult, st *Stats, tmp string) {
@@ -2028,6 +2043,238 @@ func outputsOf(b *built) map[string]string {
 		out[c.path] = clip(c.text, 3000)
 	}
 	return out
+}
+
+// ---------------------------------------------------------------------------
+// CSS side of code splitting: JS entry points and modules that import CSS files, CSS files
+// that "@import" each other (chains, diamonds, repeated imports, cycles), CSS shared between
+// entry points.  The model (Css.v) is compared with the linker's CSS chunks (dump) and with the
+// emitted .css files; the property's predicate for CSS (one CSS file per entry point that
+// reaches CSS, holding every CSS file reachable from that entry point exactly once) is
+// evaluated on the emitted files from the generated graph itself.
+
+var reCSSClass = regexp.MustCompile(`\.c(\d+)\b`)
+
+func cssCases(r *Rng, n int, tmp string, st *Stats, cf *CoqFile) {
+	var items []string
+	for ci := 0; ci < n; ci++ {
+		k := 2 + r.Intn(2)
+		nj := r.Intn(3)
+		nc := 2 + r.Intn(5)
+		files := map[string]string{}
+		// CSS import graph: mostly forward edges, sometimes a back edge (cycle) or a repeated import
+		cssImp := make([][]int, nc)
+		for a := 0; a < nc; a++ {
+			for b := a + 1; b < nc; b++ {
+				if r.Chance(35) {
+					cssImp[a] = append(cssImp[a], b)
+				}
+			}
+			if a > 0 && r.Chance(12) {
+				cssImp[a] = append(cssImp[a], r.Intn(a)) // cycle
+			}
+			if len(cssImp[a]) > 0 && r.Chance(15) {
+				cssImp[a] = append(cssImp[a], cssImp[a][0]) // the same file imported twice
+			}
+			for i := len(cssImp[a]) - 1; i > 0; i-- {
+				j := r.Intn(i + 1)
+				cssImp[a][i], cssImp[a][j] = cssImp[a][j], cssImp[a][i]
+			}
+		}
+		for a := 0; a < nc; a++ {
+			var sb strings.Builder
+			for _, b := range cssImp[a] {
+				fmt.Fprintf(&sb, "@import \"./c%d.css\";\n", b)
+			}
+			fmt.Fprintf(&sb, ".c%d { color: #%03d }\n", a, a)
+			files[fmt.Sprintf("src/c%d.css", a)] = sb.String()
+		}
+		// JS: entries import modules and CSS files; modules import CSS files and later modules
+		jsCSS := map[string][]int{}
+		jsMods := map[string][]int{}
+		names := []string{}
+		for i := 0; i < k; i++ {
+			names = append(names, fmt.Sprintf("e%d", i))
+		}
+		for j := 0; j < nj; j++ {
+			names = append(names, fmt.Sprintf("m%d", j))
+		}
+		for idx, nm := range names {
+			var lines []string
+			for j := 0; j < nj; j++ {
+				if (idx < k || idx-k < j) && r.Chance(45) {
+					jsMods[nm] = append(jsMods[nm], j)
+					lines = append(lines, fmt.Sprintf("import \"./m%d.js\";", j))
+				}
+			}
+			for c := 0; c < nc; c++ {
+				if r.Chance(30) {
+					jsCSS[nm] = append(jsCSS[nm], c)
+					lines = append(lines, fmt.Sprintf("import \"./c%d.css\";", c))
+				}
+			}
+			for i := len(lines) - 1; i > 0; i-- {
+				j := r.Intn(i + 1)
+				lines[i], lines[j] = lines[j], lines[i]
+			}
+			lines = append(lines, fmt.Sprintf("console.log(%q);", nm))
+			files["src/"+nm+".js"] = strings.Join(lines, "\n") + "\n"
+		}
+		var entries []string
+		for i := 0; i < k; i++ {
+			entries = append(entries, fmt.Sprintf("src/e%d.js", i))
+		}
+		input := map[string]interface{}{"files": files, "entryPoints": entries, "options": "bundle splitting format=esm outdir=out"}
+		// expected CSS per entry from the generated graph: reachable JS modules, their CSS, closed under @import
+		expect := map[int]map[int]bool{}
+		for i := 0; i < k; i++ {
+			seenJS := map[string]bool{}
+			css := map[int]bool{}
+			var visitCSS func(c int)
+			visitCSS = func(c int) {
+				if css[c] {
+					return
+				}
+				css[c] = true
+				for _, b := range cssImp[c] {
+					visitCSS(b)
+				}
+			}
+			var visitJS func(nm string)
+			visitJS = func(nm string) {
+				if seenJS[nm] {
+					return
+				}
+				seenJS[nm] = true
+				for _, j := range jsMods[nm] {
+					visitJS(fmt.Sprintf("m%d", j))
+				}
+				for _, c := range jsCSS[nm] {
+					visitCSS(c)
+				}
+			}
+			visitJS(fmt.Sprintf("e%d", i))
+			expect[i] = css
+		}
+		// public API build
+		root := filepath.Join(tmp, fmt.Sprintf("css%d", ci))
+		for p, txt := range files {
+			os.MkdirAll(filepath.Dir(filepath.Join(root, p)), 0o755)
+			os.WriteFile(filepath.Join(root, p), []byte(txt), 0o644)
+		}
+		res := api.Build(api.BuildOptions{AbsWorkingDir: root, EntryPoints: entries, Bundle: true, Splitting: true,
+			Format: api.FormatESModule, Outdir: "out", Write: false, LogLevel: api.LogLevelSilent})
+		if len(res.Errors) > 0 {
+			st.Fail("splitting build with CSS fails", input, res.Errors[0].Text, "no errors")
+			continue
+		}
+		text := map[int][]int{}
+		for _, f := range res.OutputFiles {
+			base := filepath.Base(f.Path)
+			if !strings.HasSuffix(base, ".css") {
+				continue
+			}
+			var e int
+			if _, err := fmt.Sscanf(base, "e%d.css", &e); err != nil {
+				st.Fail("CSS output that does not belong to an entry point", input, base, "one CSS file per entry point")
+				continue
+			}
+			seen := map[int]bool{}
+			for _, m := range reCSSClass.FindAllStringSubmatch(string(f.Contents), -1) {
+				var c int
+				fmt.Sscanf(m[1], "%d", &c)
+				if seen[c] {
+					st.Fail("a CSS file is emitted twice into one CSS chunk", input, fmt.Sprintf("%s: .c%d", base, c), "each CSS file once per chunk")
+				}
+				seen[c] = true
+				text[e] = append(text[e], c)
+			}
+		}
+		for i := 0; i < k; i++ {
+			got := map[int]bool{}
+			for _, c := range text[i] {
+				got[c] = true
+			}
+			for c := range expect[i] {
+				if !got[c] {
+					st.Fail("CSS reachable from an entry point is missing from its CSS chunk", input, fmt.Sprintf("e%d.css lacks c%d.css", i, c), "every reachable CSS file")
+				}
+			}
+			for c := range got {
+				if !expect[i][c] {
+					st.Fail("CSS chunk of an entry point contains CSS the entry point does not reach", input, fmt.Sprintf("e%d.css has c%d.css", i, c), "only reachable CSS")
+				}
+			}
+		}
+		// the linker's view
+		abs := map[string]string{}
+		var absEntries []string
+		for p, txt := range files {
+			abs["/"+p] = txt
+		}
+		for _, e := range entries {
+			absEntries = append(absEntries, "/"+e)
+		}
+		dump, derr := linkDumpFiles(abs, absEntries, buildCfg{})
+		if derr != "" {
+			if strings.HasPrefix(derr, "HOOKDIFF") {
+				st.Fail("the dumping copy of Link (verif hook) produces other output than Link", input, derr, "identical outputs")
+			}
+			st.Note("css dump-error", derr, false)
+			continue
+		}
+		sidx := map[string]int{} // base name -> source index
+		var fs []string
+		for fi := range dump.Files {
+			f := &dump.Files[fi]
+			if f.Path != "" && (f.IsCSS || !strings.HasSuffix(f.Path, ".css")) {
+				sidx[filepath.Base(f.Path)] = fi // the JS stub of a CSS file has the same path: take the CSS file
+			}
+			var recs []string
+			src := f.PartRecords
+			if f.IsCSS {
+				src = f.CSSImports
+			}
+			for _, t := range src {
+				recs = append(recs, fmt.Sprintf("%d", t))
+			}
+			stub := "(-1)"
+			if f.IsJS && f.CSSIndex >= 0 {
+				stub = fmt.Sprintf("%d", f.CSSIndex)
+			}
+			fs = append(fs, fmt.Sprintf("(%s,[%s],%s)", CBool(f.IsCSS), strings.Join(recs, ";"), stub))
+		}
+		var dchunks, tchunks []string
+		shared := false
+		for _, c := range dump.Chunks {
+			if !c.IsJS {
+				dchunks = append(dchunks, fmt.Sprintf("(%d,%s)", c.SourceIndex, cU32s(c.CSSOrder)))
+			}
+		}
+		for i := 0; i < k; i++ {
+			if len(text[i]) == 0 {
+				continue
+			}
+			var ids []int
+			for _, c := range text[i] {
+				ids = append(ids, sidx[fmt.Sprintf("c%d.css", c)])
+				for j := 0; j < k; j++ {
+					if j != i && expect[j][c] {
+						shared = true
+					}
+				}
+			}
+			tchunks = append(tchunks, fmt.Sprintf("(%d,%s)", sidx[fmt.Sprintf("e%d.js", i)], cInts(ids)))
+		}
+		item := fmt.Sprintf("([%s],%s,[%s],[%s])", strings.Join(fs, ";"), cU32s(dump.EntryPoints), strings.Join(dchunks, ";"), strings.Join(tchunks, ";"))
+		items = append(items, item)
+		st.Note(fmt.Sprintf("css k=%d css=%d chunks=%d", k, nc, len(dchunks)), item, shared)
+		if ci < 2 {
+			st.Sample(map[string]interface{}{"css-files": nc, "entries": k, "css-chunks": len(dchunks)})
+		}
+		os.RemoveAll(root)
+	}
+	cf.AddCases("css", "list cfile_z * list Z * list (Z * list Z) * list (Z * list Z)", "check_css", items)
 }
 
 // ---------------------------------------------------------------------------
